@@ -133,6 +133,19 @@ func RewriteLemmas() []Lemma {
 		raw := tt.mk(OpSLe, SBool, 0, 0, tt.BV(0, 64), tt.mk(OpZExt, 64, 32, 0, x))
 		return raw, tt.Cmp(OpSLe, tt.BV(0, 64), tt.ZExt(x, 32))
 	})
+	for _, op := range []Op{OpShl, OpLShr, OpAShr} {
+		op := op
+		add(fmt.Sprintf("shift%d(a,ite(32<=c,32,c))=shift(a,c)", op), "z3", func(tt *TermTable) (*Term, *Term) {
+			a, c := tt.Var("a", 32), tt.Var("c", 32)
+			sat := tt.mk(OpIte, 32, 0, 0, tt.mk(OpULe, SBool, 0, 0, tt.BV(32, 32), c), tt.BV(32, 32), c)
+			return tt.mk(op, 32, 0, 0, a, sat), tt.Bin(op, a, tt.Ite(tt.Cmp(OpULe, tt.BV(32, 32), c), tt.BV(32, 32), c))
+		})
+	}
+	add("ule(32,sext64(x))=ule(32,x);ult(5,zext64(x))", "z3", func(tt *TermTable) (*Term, *Term) {
+		x := tt.Var("x", 32)
+		raw := tt.mk(OpBAnd, SBool, 0, 0, tt.mk(OpULe, SBool, 0, 0, tt.BV(32, 64), tt.mk(OpSExt, 64, 32, 0, x)), tt.mk(OpULt, SBool, 0, 0, tt.BV(5, 64), tt.mk(OpZExt, 64, 32, 0, x)))
+		return raw, tt.And(tt.Cmp(OpULe, tt.BV(32, 64), tt.SExt(x, 32)), tt.Cmp(OpULt, tt.BV(5, 64), tt.ZExt(x, 32)))
+	})
 	add("mul(x,-1)=neg(x);xor(x,-1)=not(x)", "z3", func(tt *TermTable) (*Term, *Term) {
 		x := tt.Var("x", 32)
 		raw := tt.mk(OpXor, 32, 0, 0, tt.mk(OpMul, 32, 0, 0, x, tt.BV(0xffffffff, 32)), tt.mk(OpXor, 32, 0, 0, x, tt.BV(0xffffffff, 32)))
